@@ -174,58 +174,46 @@ theorem decode_total (codec : List Nat → Option (List Char)) :
     (∀ s, decodeFilter Spec.utf8Decode (.bytes (utf8Encode s)) = some s) :=
   ⟨fun _ => rfl, fun _ => rfl, fun _ => rfl, fun s => utf8Decode_encode s⟩
 
+/-- the result of a `decode.<enc>` closure depends only on `<enc>` and the argument: if the `j`-th lookup of a
+history `ops₁` was `decode.<key>`, then after ANY further operations `ops₂` (lookups of other charsets, calls of
+any closures, in any order) calling closure `j` on `x` gives exactly `decodeFilter (codecs key) x` -/
+theorem decode_uses_own_charset (codecs : List Char → List Nat → Option (List Char))
+    (ops₁ ops₂ : List DecodeOp) (j : Nat) (key : List Char) (x : PyVal)
+    (h : (Spec.lookupsOf ops₁)[j]? = some key) :
+    (decodeStep codecs (decodeRun codecs [] (ops₁ ++ ops₂)).1 (.call j x)).2 =
+      .result (decodeFilter (codecs key) x) := by
+  have hst : (decodeRun codecs [] (ops₁ ++ ops₂)).1[j]? = some key := by
+    rw [decodeRun_state, lookupsOf_append, List.nil_append]
+    exact getElem?_append_of_some h
+  simp [decodeStep, hst]
+
 /-! ## `encoding_errors='htmlentityreplace'` -/
 
 /-- every reference is `&name;` / `&#xH;` and decodes back to the character it stands for -/
-theorem htmlentityreplace_refs_decode (c : Char) (h : 128 ≤ c.toNat) : Spec.decodeRef (Spec.charRef c) = some c :=
+theorem htmlentityreplace_refs_decode (c : Char) (h : 128 ≤ c.toNat) :
+    Spec.decodeRef (Spec.charRef c) = some c :=
   decodeRef_xee c (escapable_of_nonascii c h)
 
-/-- encoding succeeds for every string, every codec that can encode ASCII, both ways codecs report errors;
-every character of the output is encodable -/
-theorem htmlentityreplace_total (enc : Char → Bool) (hascii : ∀ c : Char, c.toNat < 128 → enc c = true)
-    (grouped : Bool) (s : List Char) :
-    ∃ o, handlerEncode enc grouped s = some o ∧ ∀ x ∈ o, enc x = true := by
-  obtain ⟨o, h1, h2, _⟩ := handlerGo_wrapped enc hascii grouped s [] (by simp)
-  exact ⟨o, h1, h2⟩
-
-/- OPEN (finding F3) - the full-strength theorem (`Spec.HandlerFaithful`: each unencodable character is replaced by
-its reference, everything else is unchanged), false of the unchanged tree and of this model of it, because
-`htmlentityreplace_errors` returns `str(bytes)` and the references arrive wrapped in `b'…'`:
-
+/-- For every string, every codec that can encode ASCII (given as an arbitrary encodability predicate) and both
+ways codecs report errors (maximal run / one character): encoding with the handler succeeds, the output is the
+text with each unencodable character replaced by its reference and everything else unchanged
+(`Spec.HandlerFaithful`), every character of that output is encodable, and every reference decodes back to
+the character it replaced.  (Full statement; finding F3 was repaired in /repo by f992316.) -/
 theorem htmlentityreplace_total_and_faithful (enc : Char → Bool)
     (hascii : ∀ c : Char, c.toNat < 128 → enc c = true) (grouped : Bool) (s : List Char) :
-    Spec.HandlerFaithful enc grouped s ∧ ∀ c, 128 ≤ c.toNat → Spec.decodeRef (Spec.charRef c) = some c
-
-With the repair `return (text.decode("ascii"), ex.end)` the model's `handlerReplace` becomes `xeeEscape`, the
-wrapper in `Spec.Wrapped.run` disappears and `htmlentityreplace_faithful_modulo_wrapper` is this statement. -/
-
-/-- guard: every character of the text is encodable (the handler is never called) -/
-theorem htmlentityreplace_total_and_faithful_partial (enc : Char → Bool) (grouped : Bool) (s : List Char)
-    (hguard : ∀ c ∈ s, enc c = true) : Spec.HandlerFaithful enc grouped s := by
-  unfold Spec.HandlerFaithful handlerEncode
-  rw [handlerGo_all_encodable enc grouped s hguard]
-  congr 1
-  induction s with
-  | nil => rfl
-  | cons c cs ih =>
-    rw [List.flatMap_cons, ← ih (fun x hx => hguard x (List.mem_cons_of_mem _ hx))]
-    simp [hguard c List.mem_cons_self]
-
-/-- without the guard: encodable characters pass, each run of unencodable characters becomes the
-concatenation of their (decodable) references – inside a spurious `b'` … `'` -/
-theorem htmlentityreplace_faithful_modulo_wrapper (enc : Char → Bool)
-    (hascii : ∀ c : Char, c.toNat < 128 → enc c = true) (grouped : Bool) (s : List Char) :
-    ∃ o, handlerEncode enc grouped s = some o ∧ Spec.Wrapped enc Spec.charRef s o := by
-  obtain ⟨o, h1, _, h3⟩ := handlerGo_wrapped enc hascii grouped s [] (by simp)
-  exact ⟨o, h1, by simpa using h3⟩
-
-/-- the model (like the code) violates the full statement: `'€'.encode('ascii', 'htmlentityreplace')` is
-`b"b'&euro;'"`, not `b"&euro;"` -/
-theorem htmlentityreplace_counterexample :
-    ¬ Spec.HandlerFaithful (fun c => c.toNat < 128) true ['€'] ∧
-    handlerEncode (fun c => c.toNat < 128) true ['€'] = some "b'&euro;'".toList := by
-  unfold Spec.HandlerFaithful
-  decide +kernel
+    Spec.HandlerFaithful enc grouped s ∧
+    (∀ o, handlerEncode enc grouped s = some o → ∀ x ∈ o, enc x = true) ∧
+    (∀ c ∈ s, enc c = false → Spec.decodeRef (Spec.charRef c) = some c) := by
+  have hspec := handlerGo_spec enc hascii grouped s [] (by simp)
+  simp only [List.reverse_nil, List.flatMap_nil, List.nil_append] at hspec
+  refine ⟨hspec, ?_, ?_⟩
+  · intro o ho x hx
+    unfold handlerEncode at ho
+    rw [hspec] at ho
+    cases ho
+    exact refOut_encodable enc hascii s x hx
+  · intro c _ hc
+    exact htmlentityreplace_refs_decode c (unencodable_nonascii enc hascii c hc)
 
 /-! ## Non-vacuity: the hypotheses above are satisfiable by non-trivial instances -/
 
@@ -238,8 +226,9 @@ example : (∀ c : Char, c.toNat < 128 → (fun c : Char => decide (c.toNat < 12
 /-- … and for a Latin-1-like codec -/
 example : ∀ c : Char, c.toNat < 128 → (fun c : Char => decide (c.toNat < 256)) c = true := by
   intro c h; simp; omega
-/-- the guard of `…_partial` holds for a non-trivial text with markup and a non-ASCII encodable character -/
-example : ∀ c ∈ ['<', 'é', '&', 'a'], (fun c : Char => decide (c.toNat < 256)) c = true := by decide
+/-- the hypothesis of `decode_uses_own_charset`: a history with two live closures of different charsets -/
+example : (Spec.lookupsOf [.lookup "utf8".toList, .call 0 (.bytes [195, 169]), .lookup "latin1".toList])[0]? =
+    some "utf8".toList := by decide
 /-- `128 ≤ c.toNat` in `htmlentityreplace_refs_decode`: a character with and one without a named entity -/
 example : 128 ≤ ('€' : Char).toNat ∧ 128 ≤ ('世' : Char).toNat ∧
     Spec.charRef '€' = "&euro;".toList ∧ Spec.charRef '世' = "&#x4E16;".toList := by decide +kernel
